@@ -26,6 +26,10 @@ CLAIMED = {
    text="The set-up parser model is proof-carrying: for every byte string, an accepted set-up provably satisfies SetupWF (every book/floor/residue/mapping/mode index below its count, counts within the fixed tables of codec_setup_info whose sizes are regenerated from the source, floor-1 class/post tables within VIF_*, codeword lengths within marker[33], value books have dim>=1, quant list sizes) — C02_setup_wf, C02_table_sizes, C02_floor1_tables, C02_valuebook_has_dim; mode numbers always index inside mode_param[64] (C02_mode_index); every header/packet call returns a documented code (C02_headerin_codes, C02_packet_codes); a refused header never installs a set-up (C02_reject_keeps_state); the dim=0 lattice search diverges (F1 regression, C02_lookup1_dim0_diverges). All model functions are total. Tied to the C by stream c02: type-directed valid set-ups, a boundary stream (every field at 0/max/half/±1, cut at every field), random bytes, header permutations, init twice, random and structured packets, trackonly/restart/halfrate/clear twice — all return codes, the complete parse dump, window flags and sample counts compared with the model, everything under ASan+UBSan. Found and fixed F13 (double init after a failed init -> division by zero).",
    note="PARTIAL where it must be: floor/residue/codebook *packet* decoding, the C's pointer arithmetic, heap and stack use are exercised by sanitizer runs only (testing, not proof); the lattice search correctness for dim>=1 is validated by the dump comparison (quant list sizes), not yet proved. libogg's bit reader is modelled and validated by this stream only. Time/heap budgets: total functions with explicit fuel in the model; measured, not proved, on the C.",
    tech="Lean 4 proof-carrying parser model (facts established by each check are kernel-checked) + differential correspondence under sanitizers"),
+ "C18": dict(cat="other", ref="§8 C18",
+   text="Partial by nature. Kernel-checked: the objects compiled from the current tree contain no symbol in a writable section other than four never-stored pointer tables, no store to any non-const static, and import nothing with hidden process-wide state (no rand/strtok/setlocale/getenv/abort; exit only from floor1.o's dead encoder branch) — the lists are regenerated by objdump/nm/gcc -E on every run, so a new static buffer or global breaks a theorem. Tested, not proved: groups of 4..16 independent encoders/decoders/vorbisfile handles run concurrently (ASan and plain builds), and alone under heap perturbation (fresh and freed memory filled with junk), must reproduce the solitary runs' byte and sample hashes exactly; thorough adds ThreadSanitizer.",
+   note="A theorem cannot exhibit thread interleavings or uninitialised reads of the real C; those parts are differential testing on the schedules this machine produces. The static scan covers the default build configuration (gcc -O2, x86-64).",
+   tech="Lean 4 decide over translator-regenerated symbol/static/import tables + differential threaded / heap-perturbed runs"),
 }
 
 NA_REASON = "not yet built in this round: model/theorems for this property are not in the tree yet (see DESIGN.md §8 for the plan)"
